@@ -3,17 +3,30 @@ from lib.props.meta_common import ASSUME_COMMON
 ID = "C10"
 META = dict(
     LEVEL="fault_enumeration",
-    RULE=("for each generated dumped file (2-10 kB; with/without top-level metadata+schema, time units, reference sequence, "
-          "provenance, migrations, row metadata): EVERY truncation offset; every byte of header+descriptors+keys x "
-          "{^0x01,^0x80,=0x00,=0xFF}; arithmetic-aware edits of num_items, file_size, key_start/len, array_start/len (+-1, x2, "
+    RULE=("for each generated dumped file (2-10 kB; reference sequence / top-level metadata+schema forced on fixed shares of the files, "
+          "every eighth file with all tables empty; time units, provenance, migrations, row metadata at random): EVERY truncation "
+          "offset; every byte of header+descriptors+keys x {^0x01,^0x80,=0x00,=0xFF} (reserved descriptor bytes: all with ^0x01, a "
+          "rotating third with ^0x80/=0xFF); arithmetic-aware edits of num_items, file_size, key_start/len, array_start/len (+-1, x2, "
           "0, 2^64-1, +2^32, +2^62, +2^63, wrap-around values making len*type_size overflow back), every type code, descriptor "
-          "swap; 300 random 1-8 byte edits in column data/padding; typed special values (NaNs of either sign and several payloads, "
-          "+-inf, +-0, denormal, max, -1; ids -1, -2, n, n+1, INT_MAX, INT_MIN) in the first/middle/last element of every numeric "
-          "array item incl. sequence_length, cycling through all ten loader forms; truncations of the second object of a stream. Loaders: "
-          "tskit.load, TableCollection.load, skip_tables, skip_reference_sequence. Byte offsets are classified by an "
-          "independent parse of the layout. Distinct = sha1(file rows, fault class, file size)."),
-    REQUIRED=["loads", "truncations", "structural-edits", "arith-edits", "data-edits", "stream-loads", "typed-edits"],
-    ASSUMPTIONS=ASSUME_COMMON + ["a data-region acceptance is judged by the C02 validity predicate (tskit.load), a positive sequence_length, dump->load->dump identity and equality of the object with its own round trip"],
+          "swap, two-field edits (num_items=0+file_size=64, file_size+-k with k bytes appended/cut, both index arrays resized inside "
+          "their alignment padding); 300 random 1-8 byte edits in column data/padding; typed special values (NaNs of either sign and "
+          "several payloads, +-inf, +-0, denormal, max, -1; ids -1, -2, n, n+1, INT_MAX, INT_MIN) in the first/middle/last element of "
+          "every numeric array item incl. sequence_length; exact boundary values computed from the file (id = row count of the "
+          "referenced table +-1, offset = data length +-1, coordinate = L / L+-ulp / other end of the interval +-ulp / neighbouring "
+          "element, time = another node's time / +-ulp, adjacent elements exchanged) in (nearly) every element; items removed / "
+          "retyped / resized / duplicated / mis-ordered, tables shortened or extended consistently, index arrays resized, columns "
+          "exchanged with the file RE-PACKED by an independent kastore writer (tskit-level format checks decide), all offsets as "
+          "uint64 (must load equal) plus faults on that file; a 3-object stream of different objects with truncation / must-raise "
+          "structural and data faults in object 1 or 2 through eager loaders, lazy loaders at the object's offset and pipes; a "
+          "large file (> 65535 rows, > 64 KiB ragged column and blobs) with truncation at every array boundary and 2^k sizes, "
+          "16/32-bit-aware descriptor edits and offset entries around 2^16; torn writes (zeros from offset n to the end). 27 loader forms in rotation: tskit.load, "
+          "TreeSequence.load, TableCollection.load x {str, bytes, pathlib path, buffered / raw file object, int fd, pipe, socket} x "
+          "{skip_tables, skip_reference_sequence, both}, file argument by keyword, the low-level _tskit classes, a re-used low-level object. Byte offsets are "
+          "classified by an independent parse of the layout. Distinct = sha1(file rows, fault class, file size)."),
+    REQUIRED=["loads", "truncations", "structural-edits", "arith-edits", "data-edits", "stream-loads", "typed-edits",
+              "boundary-edits", "repack-edits", "stream-fault-loads", "truncations-nonseekable", "arith-combo-edits"],
+    ASSUMPTIONS=ASSUME_COMMON + ["a data-region acceptance is judged by the C02 validity predicate (tskit.load), a positive sequence_length, dump->load->dump identity and equality of the object with its own round trip",
+                                 "a re-packed file that breaks a format requirement of lib/props/c10_ext.format_reasons (column types as dump() writes them, one row count per table, offsets rows+1 non-decreasing 0..len(data), index one entry per edge, fixed-shape format/name, format/version, uuid, sequence_length) must be refused by every loader that reads the item"],
     BUDGET={"quick": 60.0, "thorough": 1200.0},
     CASE_TIMEOUT={"quick": 240, "thorough": 600},
 )
